@@ -124,7 +124,7 @@ def tables_for(tier):
         r4 = [[("a", "get"), ("a", "post")], [("ax", "gp"), ("ab", "foo")]]
         for rs in r4:
             for dm in ("one", "lit+param", "catch+lit"):
-                for st in ("flat", "nest:/p"):
+                for st in ("flat", "nest:/p", "split:/p"):
                     for fb in FBS:
                         add("Q4:domains", T(rs, st, fb, dm))
         # Q5 grouping blueprints without prefixes: [nest{r0, S?}, nest{G1?, nest{r1, L1?}}, nest{G2?, nest{r2, L2?}}, R?]
@@ -305,7 +305,9 @@ def table_paths(t, tier):
 def table_hosts(t, tld):
     if t["dom"] == "none":
         return [None]
-    return [f"a.{tld}", f"b.{tld}", f"x.a.{tld}", f"a.{tld}.", "nope", None]
+    # with an explicit port too: "the domain requested by the client is determined using the Host header" (domain_guards.md),
+    # i.e. the host part of `host[:port]`, in relative and in absolute (trailing dot) form
+    return [f"a.{tld}", f"b.{tld}", f"x.a.{tld}", f"a.{tld}.", "nope", None, f"a.{tld}:8080", f"a.{tld}.:8080", f"b.{tld}.:80"]
 
 
 def table_requests(entry, ti, tier):
@@ -377,6 +379,8 @@ def shape(segs):
 
 def norm_host(host):
     h = "localhost" if host is None else host  # the runner sends `Host: localhost` when no host is given
+    if ":" in h and h.rsplit(":", 1)[1].isdigit():
+        h = h.rsplit(":", 1)[0]
     if h.endswith("."):
         h = h[:-1]
     return h
